@@ -127,6 +127,9 @@ func relevant(o *Obl, c *Contract, prop string) bool {
 		return hasPropLabel(o.Labels, prop)
 	}
 	if c == nil {
+		if len(o.Props) > 0 {
+			return contains(o.Props, prop)
+		}
 		return true
 	}
 	return contains(c.Props, prop)
